@@ -344,7 +344,28 @@ REJECTS.append(reject_case("quantity/non-numeric-value",
                            lambda api: Txt(api).label("l0").ws(1, "w0").sym(symbol(api, "s0")).build(),
                            fn="parse_unitvalue"))
 
-CASES = [roundtrip_units_case(), roundtrip_value_case(), quantity_meaning_case(), slash_case(), order_case()]
+def special_values_case(api):
+    """bit-identical round trip of values the real-number model cannot distinguish (finite list)"""
+    import math
+    import struct
+    U = api.mod("units")
+    P = "C18/roundtrip/special-values"
+    vals = [0.0, -0.0, 5e-324, -5e-324, 2.2250738585072014e-308, 1.7976931348623157e308, -1.7976931348623157e308,
+            0.1, 1 / 3, 1e22, 1e23, 123456789.12345678, 9007199254740993.0, 1e-7, 1.0000000000000002]
+    for v in vals:
+        for units in ("µm", "mol/s", ""):
+            q = U.UnitValue(v, units)
+            r = U.parse_unitvalue(str(q))
+            api.check(P + "/%r" % v, struct.pack("d", r.value) == struct.pack("d", q.value) and r.units == q.units,
+                      "%r %s -> %r" % (v, units, r.value))
+            q2 = U.UnitValue(1.0, units) * v
+            r2 = U.parse_unitvalue(str(q2))
+            api.check(P + "/computed/%r" % v, struct.pack("d", r2.value) == struct.pack("d", q2.value))
+
+
+CASES = [Case("roundtrip/special-values", special_values_case, functions=["UnitValue.__str__", "parse_unitvalue"],
+              sym=False, bounded="15 special doubles (signed zeros, denormals, extremes) x 3 units, exhaustive"),
+         roundtrip_units_case(), roundtrip_value_case(), quantity_meaning_case(), slash_case(), order_case()]
 for _e in ((False,), (True,)):
     CASES.append(meaning_case(1, (), _e))
 for _s in (".", "/"):
